@@ -184,21 +184,7 @@ def one_call(sc, env_holder):
     return _one_call_body(sc, env)
 
 
-class _FaultyLinalgSolve(object):
-    """the k-th call raises what LAPACK raises for a singular system; later calls go through"""
-
-    def __init__(self, k):
-        self.k = k
-        self.n = 0
-        self.fired = 0
-        self.orig = torch.linalg.solve
-
-    def __call__(self, *a, **kw):
-        self.n += 1
-        if self.n == self.k:
-            self.fired += 1
-            raise torch._C._LinAlgError("injected: linalg.solve: The solver failed because the input matrix is singular.")
-        return self.orig(*a, **kw)
+from xsim.probe import FaultyLinalgSolve as _FaultyLinalgSolve
 
 
 def _with_linalg_fault(sc, env):
